@@ -121,6 +121,7 @@ type Sim struct {
 	fairMode     bool
 	maxTasksLive int
 	data         any
+	demoted      int
 	spins        int // number of SpinHint calls (failed try-locks, Gosched) so far
 	optBuf       []*Task
 	stepHooks    []func()
@@ -644,6 +645,12 @@ func SpinHint() {
 	if s := S; s != nil && s.cur != nil {
 		s.cur.spin = true
 		s.spins++
+		if s.cfg.Strategy == 2 {
+			// PCT: a spinner must not keep outranking the task it is waiting for (two high-priority
+			// spinners would otherwise alternate until the fair walk starts)
+			s.demoted--
+			s.cur.prio = s.demoted
+		}
 	}
 }
 
